@@ -8,6 +8,7 @@ This is the run-time side of C16_entry_point_contract / C16_success_leaves_no_er
 import os
 
 from .. import core
+from .. import hangaware
 from .. import suitedumps
 
 GET_KEYS = ["file.format", "arch.name", "arch.byte_order", "arch.ptr_size", "arch.page_size", "arch.page_shift",
@@ -130,7 +131,7 @@ def judge(run, cases, impl):
 
 def run_one(exe, run, line):
     cf = run.casefile("api-one.txt", [line])
-    rc, out, err = core.run_impl(exe, [cf], timeout=60)
+    rc, out, err = core.run_impl(exe, [cf], timeout=25)
     return out.split("\n")[:-1], rc, err
 
 
@@ -146,7 +147,7 @@ def report(run, exe, cases, names, impl, crashes, bad):
         if not fails(ops):
             run.count("unreproducible-disagreement")
             continue
-        small = core.shrink_list(ops, fails, max_tests=80)
+        small = core.shrink_list(ops, fails, max_tests=80, budget_s=25)
         line = path + " " + " ".join(small)
         im, rc, err = run_one(exe, run, line)
         b = judge(run, [line], im)
@@ -183,7 +184,7 @@ def check(run):
             cases.append(files[n] + " o saddrxlat.ostype=%s x r2:ffff880002000000:8 r0:1000:8 r1:0:8 x "
                          "alinux.uts.release t2:ffffffff81e15325" % ost)
     run.cov["engines"]["errmsg-api"] = {"dumps": len(files), "case_lines": len(cases)}
-    impl, crashes = core.run_impl_lines(exe, run.work, cases, timeout=120 if quick else 1200)
+    impl, crashes = hangaware.run_lines(exe, run.work, cases, timeout=120 if quick else 1200)
     for c, l in zip(cases, impl):
         run.note_case(c, True)
         for a in l.split():
@@ -207,6 +208,6 @@ def replay(run, rp):
         return
     names = {p: n for n, p in files.items()}
     cases = [files[rp["dump"]] + " " + rp["ops"]]
-    impl, crashes = core.run_impl_lines(exe, run.work, cases, timeout=120)
+    impl, crashes = hangaware.run_lines(exe, run.work, cases, timeout=120)
     print("implementation: " + impl[0])
     report(run, exe, cases, names, impl, crashes, judge(run, cases, impl))
